@@ -1,10 +1,10 @@
 (* Extraction of the C19 model: ExtrOcamlBasic only, no Extract Constant. *)
 Require Import ExtrOcamlBasic.
 From Coq Require Import NArith.
-From SharkV Require Import ListAux C03Model C19Model C19BigBatch.
+From SharkV Require Import ListAux C03Model C19Model C19BigBatch C19Lines.
 Extraction "c19_model.ml" csv_import_data csv_import_reg csv_import_cls csv_import_ints csv_import_uints
   csv_import_reals svm_import_cls svm_import_reg svm_import_cls_coded svm_import_reg_coded
   lex_double export_data export_cls export_reg export_svm_cls export_svm_reg class_count ds_elems
   csv_import_data_into csv_import_reg_into csv_import_cls_into csv_import_ints_into csv_import_uints_into
   csv_import_reals_into svm_import_cls_into svm_import_reg_into svm_import_cls_coded_N svm_import_reg_coded_N
-  opt_sizes64 opt_sizes64_idiom init_sizes64 N.add N.mul N.compare.
+  opt_sizes64 opt_sizes64_idiom init_sizes64 N.add N.mul N.compare crlf.
